@@ -46,6 +46,21 @@ func unwrapError(msg string, err error) error {
 	}
 }
 
+// errBehavior returns the behavior code of any error the search and skip helpers return
+// (a Node, a Value, a meta.Error or a plain error)
+func errBehavior(err error) meta.ErrCode {
+	switch v := err.(type) {
+	case Node:
+		return v.ErrCode().Behavior()
+	case Value:
+		return v.ErrCode().Behavior()
+	case meta.Error:
+		return v.Code.Behavior()
+	default:
+		return meta.ErrRead
+	}
+}
+
 //go:noinline
 func wrapValue(n Node, desc *proto.TypeDescriptor) Value {
 	return Value{
